@@ -446,8 +446,10 @@ def run_case(prop, case, res):
         run_asm_case(case, res)
     elif k == "halves":
         run_halves_case(case, res)
-    elif k == "word":
+    elif k in ("word", "instr"):
         run_encode(res)
+    elif k == "doc":
+        run_docs(res)
 
 
 def run_shard(spec, res):
